@@ -16,6 +16,7 @@ package mempool
 
 import (
 	"bytes"
+	"errors"
 	"fmt"
 	"time"
 
@@ -168,6 +169,9 @@ var _ = wire.RegisterInterface(
 )
 
 func DecodeMessage(bz []byte) (msgType byte, msg MempoolMessage, err error) {
+	if len(bz) == 0 {
+		return 0, nil, errors.New("empty message")
+	}
 	msgType = bz[0]
 	n := new(int)
 	r := bytes.NewReader(bz)
